@@ -40,6 +40,7 @@ def setup(ctx):
         "the pin key is (lower-cased host without brackets, port) as the client derives it from the URL",
         "with TOFU off the store must stay untouched; unparsable certificates are then not judged",
     ]
+    ctx.require("monitor", "speak_first_calls", 18)
     ctx.require("monitor", "l3_calls", 400)
     ctx.require("monitor", "changed_cert_calls", 30)
     ctx.require("monitor", "tampered_cert_calls", 20)
@@ -673,6 +674,73 @@ def run_store_faults(ctx):
                 ctx.case(("store-fault", entry, n, fault.fired, first[0], second[0]), True, sample=wit)
 
 
+def run_speak_first(ctx):
+    """Peers that do not wait for the request: the end of the handshake, a complete response and close_notify
+    arrive in one segment (TLS 1.2 and 1.3), so the connection may already be closing when the client gets to
+    look at the certificate.  A pinned host with another certificate is refused all the same (no content, pin
+    untouched); a first contact that returns content has pinned what was presented."""
+    from cryptography import x509
+
+    from nauyaca.client.session import GeminiClient
+    from nauyaca.security.tofu import CertificateChangedError
+
+    from vf import peers
+
+    P = pool()
+    tmp = tempfile.mkdtemp(prefix="vf-c03-sf-")
+    try:
+        for tls12 in (True, False):
+            with peers.SpeakFirstPeer(P["ec2"], tls12=tls12) as sp:
+                for op in ("get", "upload", "delete"):
+                    for situation in ("pinned-other", "pinned-same", "unpinned"):
+                        for rep in range(3 if not tls12 else 1):
+                            dbp = os.path.join(tmp, f"sf-{tls12}-{op}-{situation}-{rep}.db")
+                            client = GeminiClient(timeout=6, trust_on_first_use=True, tofu_db_path=Path(dbp))
+                            if situation != "unpinned":
+                                client.tofu_db.trust("127.0.0.1", sp.port, x509.load_der_x509_certificate(P["ec1" if situation == "pinned-other" else "ec2"].der))
+                            before = dump(dbp)
+                            url = f"gemini://127.0.0.1:{sp.port}/x"
+
+                            async def call():
+                                if op == "get":
+                                    return await client.get(url)
+                                if op == "delete":
+                                    return await client.delete(url)
+                                return await client.upload(url, b"payload", mime_type="text/plain")
+
+                            try:
+                                r = asyncio.run(call())
+                                res = ("response", r.status, (r.body or "")[:40] if isinstance(r.body, str) else None)
+                            except CertificateChangedError as e:
+                                res = ("changed", e.old_fingerprint[:16], e.new_fingerprint[:16])
+                            except BaseException as e:  # noqa: BLE001
+                                res = ("error", type(e).__name__, str(e)[:60])
+                            sp.wait_idle(3)
+                            after = dump(dbp)
+                            ctx.count("monitor", "l3_calls")
+                            ctx.count("monitor", "speak_first_calls")
+                            wit = {"level": "L3", "peer": f"answers without waiting for the request, {'TLS 1.2' if tls12 else 'TLS 1.3'}: last handshake flight + response + close_notify in one segment", "operation": op,
+                                   "store_before": [(h, p, f[:16]) for h, p, f, _ in before], "peer_presents": P["ec2"].fingerprint[:16], "result": res,
+                                   "store_after": [(h, p, f[:16]) for h, p, f, _ in after]}
+                            if situation == "pinned-other":
+                                ctx.count("monitor", "changed_cert_calls")
+                                if res[0] == "response":
+                                    ctx.violation(f"accepted-changed-cert:entry={op}:peer-speaks-first", "a pinned host presented another certificate and the call returned a response", wit)
+                                elif [(h, p, f) for h, p, f, _ in after] != [(h, p, f) for h, p, f, _ in before]:
+                                    ctx.violation(f"pin-replaced:entry={op}:peer-speaks-first", "the pin changed although the certificate was refused", wit)
+                                elif res[0] != "changed":
+                                    ctx.undecided(f"speak-first:changed-cert-ended-as-{res[1]}")
+                            elif res[0] == "response":
+                                fps = [f for h, p, f, _ in after if (h, p) == ("127.0.0.1", sp.port)]
+                                if fps != [P["ec2"].fingerprint]:
+                                    ctx.violation(f"response-without-pin:entry={op}:peer-speaks-first", "content was returned but the certificate presented is not what the store holds for this host afterwards", wit)
+                            elif res[0] == "changed":
+                                ctx.violation(f"spurious-change:entry={op}:peer-speaks-first", "certificate reported as changed although the store held no other pin", wit)
+                            ctx.case(("speak-first", tls12, op, situation, res[0]), True, sample=wit)
+    finally:
+        shutil.rmtree(tmp, ignore_errors=True)
+
+
 def run(ctx):
     run_l0(ctx)
     run_l3(ctx)
@@ -680,3 +748,5 @@ def run(ctx):
         run_concurrent_first_contact(ctx)
     if ctx.shard == 2 or ctx.nshards == 1:
         run_store_faults(ctx)
+    if ctx.mine(3) or ctx.nshards == 1:
+        run_speak_first(ctx)
